@@ -58,6 +58,20 @@ def apiLegalName (n : Bytes) : Bool :=
     r.all (fun c => (97 ≤ c.toNat && c.toNat ≤ 122) || (65 ≤ c.toNat && c.toNat ≤ 90) || (48 ≤ c.toNat && c.toNat ≤ 57) ||
       c.toNat == 95 || c.toNat == 46 || c.toNat == 45 || c.toNat == 47)
 
+/-! ### legality of exposed names: validity hypotheses as decidable predicates -/
+
+def isAscii (s : Bytes) : Bool := s.all (fun c => c.toNat < 128)
+
+/-- the contract the theorems need of the escape function (model.EscapeName with underscore escaping): the empty string
+stays empty, anything else becomes a non-empty legal legacy metric name. Proved for `escUnderscore`. -/
+def EscLegal (esc : Bytes → Bytes) : Prop :=
+  esc [] = [] ∧ ∀ s, s ≠ [] → esc s ≠ [] ∧ legacyMetricAux true (esc s) = true
+
+/-- the collector's namespace is admissible: empty, or (legacy) a legal legacy name / (UTF-8) valid UTF-8.
+`WithNamespace` always produces such a namespace from valid UTF-8 (theorem `withNamespace_ok`). -/
+def nsOK (cfg : Cfg) : Bool :=
+  if cfg.legacy then cfg.ns == [] || legacyMetricAux true cfg.ns else Utf8.validString cfg.ns
+
 /-! ### labels -/
 
 /-- the values of all attributes whose sanitised key is `k`, in attribute order -/
@@ -107,6 +121,12 @@ def expoFaithful (dp : ExpoDP) (n : Native) : Bool :=
 /-- F28: the SDK scale is outside Prometheus' native-histogram schema range −4..8 -/
 def F28_applies (dp : ExpoDP) : Bool := decide (dp.scale > 8) || decide (dp.scale < -4)
 
+/-- SDK invariants of a data point the value theorems need (C07 for histograms; bucket counts fit int64) -/
+def pointDataValid : Payload → Bool
+  | .num _ => true
+  | .hist count _ bounds counts => counts.length == bounds.length + 1 && count == counts.sum
+  | .expo _ dp => (dp.pos ++ dp.neg).all (fun c => decide (c ≤ maxInt64))
+
 /-! ### validateMetrics -/
 
 abbrev Op := Bytes × Bytes × MType   -- name, description, type
@@ -126,6 +146,10 @@ def payloadFaithful : Payload → OutPayload → Bool
   | .hist count sumq bounds counts, .hist count' sumq' buckets => sumq == sumq' && histFaithful bounds counts count count' buckets
   | .expo sumq dp, .native sumq' n => sumq == sumq' && expoFaithful dp n
   | _, _ => false
+
+def nodupSlots : List Slot → Bool
+  | [] => true
+  | k :: ks => !ks.contains k && nodupSlots ks
 
 /-- Exemplars: client_golang accepts an exemplar iff its label names are legal, its values valid UTF-8 and names+values
 hold ≤ 128 runes; one refused exemplar removes all exemplars of the series (never the series). Accepted: a counter
@@ -148,8 +172,7 @@ def exemplarsFaithful (esc : Bytes → Bytes) (legacy : Bool) (typ : MType) (pay
       obs.all (fun o => exs.any (fun e => o.q == e.q && o.labels == labelsOf e && o.slot == bucketSlot bounds e.q)) &&
       exs.all (fun e => obs.any (fun o => o.slot == bucketSlot bounds e.q)) &&
       (obs.filter (fun o => o.slot == Slot.inf)).length == (exs.filter (fun e => bucketSlot bounds e.q == Slot.inf)).length &&
-      (let slots := (obs.filter (fun o => o.slot != Slot.inf)).map (·.slot)
-       slots.eraseDups.length == slots.length)
+      nodupSlots ((obs.filter (fun o => o.slot != Slot.inf)).map (·.slot))
     else obs.isEmpty
   | .expo _ _ => obs.isEmpty
 
@@ -171,11 +194,19 @@ def seriesMatches (esc : Bytes → Bytes) (sc : Scenario) (s : Scope) (attrs : L
   | some own => labelsMerged (effEsc esc sc.cfg.legacy) attrs own
   | none => false
 
-/-- all label keys a series of this point will carry, sanitised -/
-def pointKeys (esc : Bytes → Bytes) (sc : Scenario) (attrs : List KV) : List Bytes :=
-  let e := effEsc esc sc.cfg.legacy
-  ((attrs.map (fun kv => e kv.1)).eraseDups) ++ (if sc.noScope then [] else [scopeNameLabel, scopeVersionLabel]) ++
-  (if sc.resConst then (sc.res.map (fun kv => e kv.1)).eraseDups else [])
+/-- the labels Collect appends to every series of a scope: scope name/version unless WithoutScopeInfo, then the resource
+attributes when WithResourceAsConstantLabels is set -/
+def extraKVs (esc : Bytes → Bytes) (sc : Scenario) (s : Scope) : List KV :=
+  scopeExtra sc (if sc.resConst then getAttrs esc sc.cfg.legacy sc.res else []) s
+
+def extraKeys (esc : Bytes → Bytes) (sc : Scenario) : List Bytes := (extraKVs esc sc ⟨[], [], []⟩).map (·.1)
+
+/-- "valid attribute set" for a series: every (sanitised) key is a label name the registry admits and none collides with
+the labels the exporter adds itself; in the UTF-8 scheme keys are unique (attribute.Set invariant) -/
+def labelsAdmissible (esc : Bytes → Bytes) (legacy : Bool) (attrs : List KV) (extra : List Bytes) : Bool :=
+  let e := effEsc esc legacy
+  attrs.all (fun kv => labelNameOK legacy (e kv.1) && !extra.contains (e kv.1)) &&
+  extra.all (labelNameOK legacy) && nodupKeys extra && (legacy || nodupKeys (attrs.map (·.1)))
 
 structure Seen where
   name : Bytes
@@ -188,25 +219,21 @@ def instValid (esc : Bytes → Bytes) (sc : Scenario) (i : Inst) : Bool :=
   apiLegalName i.name &&
   (let n := refName esc sc.cfg i.name i.unit i.dtype.mtype
    n != b "target_info" && n != b "otel_scope_info") &&
-  i.points.all (fun p =>
-    let ks := pointKeys esc sc p.attrs
-    nodupKeys ks && ks.all (labelNameOK sc.cfg.legacy))
+  i.points.all (fun p => labelsAdmissible esc sc.cfg.legacy p.attrs (extraKeys esc sc))
 
 def resValid (esc : Bytes → Bytes) (sc : Scenario) : Bool :=
   sc.res.all (fun kv => labelNameOK sc.cfg.legacy (effEsc esc sc.cfg.legacy kv.1))
 
 def allInsts (sc : Scenario) : List (Scope × Inst) := sc.scopes.flatMap (fun s => s.insts.map (fun i => (s, i)))
 
+/-- no two series of what is sent have the same family name and the same label set (this is what the registry rejects as
+"collected before with the same name and label values") -/
+def distinctSeries : List Emitted → Bool
+  | [] => true
+  | m :: r => r.all (fun x => !(x.name == m.name && sortKV x.labels == sortKV m.labels)) && distinctSeries r
+
 /-- two series of the same family with identical label sets (the registry rejects the second) -/
-def dupSeries (esc : Bytes → Bytes) (sc : Scenario) : Bool :=
-  let keyOf (s : Scope) (i : Inst) (p : Point) : Bytes × List KV × Bytes × Bytes :=
-    (refName esc sc.cfg i.name i.unit i.dtype.mtype,
-     sortKV (getAttrs esc sc.cfg.legacy p.attrs), if sc.noScope then [] else s.name, if sc.noScope then [] else s.version)
-  let keys := (allInsts sc).flatMap (fun si => si.2.points.map (keyOf si.1 si.2))
-  let rec dup : List (Bytes × List KV × Bytes × Bytes) → Bool
-    | [] => false
-    | k :: ks => ks.contains k || dup ks
-  dup keys
+def dupSeries (esc : Bytes → Bytes) (sc : Scenario) : Bool := !distinctSeries (collect esc sc)
 
 def scenarioValid (esc : Bytes → Bytes) (sc : Scenario) : Bool :=
   (allInsts sc).all (fun si => instValid esc sc si.2) && resValid esc sc && !dupSeries esc sc &&
